@@ -263,7 +263,7 @@ def _setup(cloud):
     import gear.cloud_config as cc
     import batch.front_end.front_end as fe
 
-    logging.disable(logging.CRITICAL)
+    logging.disable(logging.NOTSET)  # records are built and formatted by boot._FormatAndDrop, then dropped
     if _loop is None:
         _loop = asyncio.new_event_loop()
     cc.azure_config = cc.AzureConfig('sub', 'rg', 'eastus')
